@@ -159,8 +159,10 @@ def stepC17 (s : DState) (line : String) : DState × String :=
   | "lru" :: args => match s.lru with
     | some c => let (c', out) := lruStep c args; ({ s with lru := c' }, out)
     | none => (s, "PANIC")
-  | ["dns", "new", cap, u, t] => match cap.toNat?, pBool u, pBool t with
-    | some cap, some u, some t => ({ s with cfg := { hasUDP := u, hasTCP := t, cap := cap }, st := {} }, "ok")
+  | ["dns", "new", cap, u, t] => match cap.toInt?, pBool u, pBool t with
+    | some cap, some u, some t =>
+      -- NewBoundedCache: a non-positive capacity means math.MaxInt
+      ({ s with cfg := { hasUDP := u, hasTCP := t, cap := (Lru.new (K := Nat) (V := Nat) cap).cap }, st := {} }, "ok")
     | _, _, _ => (s, "bad-op")
   | "dns" :: "lookup" :: gap :: name :: toks => match gap.toNat?, pUpstream toks with
     | some gap, some up =>
